@@ -9,7 +9,8 @@
      RS url                                     SessionManager.resolve_cap
      RQ url n name*                             _handle_request (seed body = list of names)
      RE fid status nw wname* n (name val)*      _handle_response
-   A first token "U<n>" sets the uuid counter base (default 0). *)
+   A first token "U<n>" sets the uuid counter base (default 0).
+   After it, a token "E" (every-step records) or "T" (tree walk) selects the modes described near the end of this file. *)
 
 (* ---- string conversions ---- *)
 let ascii_of_char (c:char) : ascii =
@@ -26,7 +27,15 @@ let ocaml_of_str l = let b = Buffer.create 64 in List.iter (fun a -> Buffer.add_
 let unhex h =
   let n = String.length h / 2 in
   String.init n (fun i -> Char.chr (int_of_string ("0x" ^ String.sub h (2*i) 2)))
-let hex s = let b = Buffer.create 64 in String.iter (fun c -> Buffer.add_string b (Printf.sprintf "%02x" (Char.code c))) s; Buffer.contents b
+let hex s =
+  let d = "0123456789abcdef" in
+  let n = String.length s in
+  let b = Bytes.create (2 * n) in
+  for i = 0 to n - 1 do
+    let c = Char.code s.[i] in
+    Bytes.unsafe_set b (2 * i) d.[c lsr 4]; Bytes.unsafe_set b (2 * i + 1) d.[c land 15]
+  done;
+  Bytes.to_string b
 let xtok w = str_of_ocaml (unhex (String.sub w 1 (String.length w - 1)))
 let xout l = "x" ^ hex (ocaml_of_str l)
 
@@ -176,6 +185,49 @@ let state_out (m : manager) =
   String.concat " ; " (List.map (fun s -> "S " ^ string_of_int (int_of_n s.s_id) ^ " " ^ String.concat " " (List.map region_out s.s_regions)) m.m_sessions)
   ^ " U " ^ string_of_int (int_of_nat m.m_uuid)
 
+(* ---- every-step and tree modes (after the optional U<n> token) ----
+   E <ops>                                    one record "out || state" per op (state after EVERY op), records joined by TAB
+   T depth si ri name || <prefix ops> || <alphabet ops>
+                                              after the prefix, every sequence of 1..depth alphabet ops, depth-first in alphabet
+                                              order (a node is printed before its children); one record per node:
+                                              "out || state || BN <cap_url r name> G <md_getall name (r_caps r)>", joined by TAB.
+   The walk only applies the extracted [step] to the parent's model state; the by-name part is the extracted
+   [cap_url] / [md_getall] on region (si, ri). *)
+let rec split_on tok (ws : string list) (cur : string list) : string list list =
+  match ws with
+  | [] -> [List.rev cur]
+  | w :: t when w = tok -> List.rev cur :: split_on tok t []
+  | w :: t -> split_on tok t (w :: cur)
+
+let by_name_out (m : manager) (si, ri, name) =
+  match get_region m si ri with
+  | None -> "BN none"
+  | Some r ->
+    "BN " ^ osome xout (cap_url r name) ^ " G " ^
+    String.concat " " (List.map (fun (t, u) -> ty_out t ^ ":" ^ xout u) (md_getall name r.r_caps))
+
+let run_every (ops : op list) : string =
+  let buf = Buffer.create 4096 in
+  let _ = List.fold_left (fun m o ->
+      let (m1, x) = step fresh wrap m o in
+      if Buffer.length buf > 0 then Buffer.add_char buf '\t';
+      Buffer.add_string buf (out_out x); Buffer.add_string buf " || "; Buffer.add_string buf (state_out m1);
+      m1) init_manager ops in
+  Buffer.contents buf
+
+let run_tree (depth : int) watch (pre : op list) (alpha : op list) : string =
+  let buf = Buffer.create (1 lsl 20) in
+  let (m0, _) = run_trace fresh wrap pre init_manager in
+  let rec walk m d =
+    List.iter (fun o ->
+        let (m1, x) = step fresh wrap m o in
+        if Buffer.length buf > 0 then Buffer.add_char buf '\t';
+        Buffer.add_string buf (out_out x); Buffer.add_string buf " || "; Buffer.add_string buf (state_out m1);
+        Buffer.add_string buf " || "; Buffer.add_string buf (by_name_out m1 watch);
+        if d > 1 then walk m1 (d - 1)) alpha in
+  walk m0 depth;
+  Buffer.contents buf
+
 let () =
   try
     while true do
@@ -185,9 +237,20 @@ let () =
         let ws = match ws with
           | w :: t when String.length w > 1 && w.[0] = 'U' && w <> "UC" -> uuid_base := int_of_string (String.sub w 1 (String.length w - 1)); t
           | _ -> uuid_base := 0; ws in
-        let ops = List.map parse_op (split_ops ws []) in
-        let (m, outs) = run_trace fresh wrap ops init_manager in
-        print_endline (String.concat " | " (List.map out_out outs) ^ " || " ^ state_out m)
+        (match ws with
+         | "E" :: rest ->
+           print_endline (run_every (List.map parse_op (split_ops rest [])))
+         | "T" :: depth :: si :: ri :: name :: "||" :: rest ->
+           (match split_on "||" rest [] with
+            | [pre; alpha] ->
+              print_endline (run_tree (int_of_string depth)
+                               (nat_of_int (int_of_string si), nat_of_int (int_of_string ri), xtok name)
+                               (List.map parse_op (split_ops pre [])) (List.map parse_op (split_ops alpha [])))
+            | _ -> failwith "T")
+         | _ ->
+           let ops = List.map parse_op (split_ops ws []) in
+           let (m, outs) = run_trace fresh wrap ops init_manager in
+           print_endline (String.concat " | " (List.map out_out outs) ^ " || " ^ state_out m))
       with Failure e -> print_endline ("PARSE-ERROR " ^ e)
          | Invalid_argument e -> print_endline ("PARSE-ERROR " ^ e))
     done
